@@ -107,6 +107,34 @@ def extract_registry():
     return reg
 
 
+def tla(v):
+    """Python value -> TLA+ literal (records, sequences, strings, booleans)."""
+    if isinstance(v, bool):
+        return "TRUE" if v else "FALSE"
+    if isinstance(v, str):
+        return '"' + v.replace("\\", "\\\\").replace('"', '\\"') + '"'
+    if isinstance(v, int):
+        return str(v)
+    if isinstance(v, (list, tuple)):
+        return "<<" + ", ".join(tla(x) for x in v) + ">>"
+    if isinstance(v, dict):
+        return "[" + ", ".join("%s |-> %s" % (k, tla(x)) for k, x in v.items()) + "]"
+    raise MachineryError("cannot write %r as a TLA+ value" % (v,))
+
+
+def registry_module(registry, live):
+    """The generated module RegistryData.tla."""
+    recs = [{k: r[k] for k in ("name", "kind", "call", "variants")} for r in registry]
+    by = {r["name"]: r["call"] for r in registry}
+    fn = lambda f: ("[d \\in RegDatasets |-> CASE " + "\n      [] ".join('d = %s -> %s' % (tla(n), tla(f(by[n]))) for n in live)
+                    + "]") if live else "<<>>"
+    return ("---- MODULE RegistryData ----\n\\* generated by harness/c18.py from the working tree; do not edit\n"
+            "RegistryData == <<\n  " + ",\n  ".join(tla(r) for r in recs) + "\n>>\n"
+            "RegDatasets == {" + ", ".join(tla(n) for n in live) + "}\n"
+            "RegUrlOf == " + fn(lambda c: c["url"]) + "\n"
+            "RegSlotOf == " + fn(lambda c: c["folder"] + "/" + c["slot"]) + "\n====\n")
+
+
 # --------------------------------------------------------------------------------------------------------
 # real loads with a fake network
 # --------------------------------------------------------------------------------------------------------
@@ -194,7 +222,7 @@ def one_load(name, canon, doc, unpack, mode, home, fake_home, foreign=None, prev
         out, outcome = None, cachelib.classify_exc(ex)
     finally:
         base.urlretrieve, base._sha256, base.time = saved
-    ev = {"fn": "load", "name": name, "canon": canon, "doc": doc, "unpack": bool(unpack), "mode": mode, "prev": prev,
+    ev = {"fn": "load", "name": name, "canon": canon, "doc": doc, "unpack": bool(unpack), "mode": mode, "prev": prev, "neg": False,
           "outcome": outcome, "urls": urls, "dlnames": dlnames,
           "created": [p for p in listing(home) if p not in before], "home_ok": not os.path.exists(default_home),
           "ret": classify_return(out) if outcome == "ok" else ["other", ""]}
@@ -292,17 +320,17 @@ def run():
     if len(registry) < 2:
         raise MachineryError("no documented names found under %s" % DESC_DIR)
     WORLD = World(registry)
-    regfile = c.scratch.path("registry.json")
-    with open(regfile, "w") as f:
-        json.dump(registry, f)
     live = [r["name"] for r in registry if r["kind"] == "remote" and r["call"]["resolves"] and r["call"]["loader"] == "remote"]
+    regfile = c.scratch.path("RegistryData.tla")
+    with open(regfile, "w") as f:
+        f.write(registry_module(registry, live))
 
     # ---- (A) TLC on the registry -------------------------------------------------------------------------
-    jobs = [{"module": "MC_Registry", "modules": ["MC_Registry"], "cfg": "MC_Registry.cfg", "env": {"REGISTRY_FILE": regfile},
+    jobs = [{"module": "MC_Registry", "modules": ["MC_Registry"], "cfg": "MC_Registry.cfg", "files": [regfile],
              "allow_violation": True, "workers": 1}]
     if len(live) >= 2:
         jobs.append({"module": "MC_RegistryPairs", "modules": ["MC_RegistryPairs"], "cfg": "MC_RegistryPairs.cfg",
-                     "env": {"REGISTRY_FILE": regfile}, "allow_violation": True, "extra": ["-continue"], "coverage": True,
+                     "files": [regfile], "allow_violation": True, "extra": ["-continue"], "coverage": True,
                      "require_actions": ("Stat", "Mkdir", "DlBegin", "DlEnd", "Verify", "Parse", "DumpBegin", "DumpEnd",
                                          "Rename", "Cleanup", "Return")})
     results = cachelib.run_models(c, jobs, parallel=2)
@@ -313,7 +341,7 @@ def run():
     if rep is None:
         raise MachineryError("MC_Registry printed no report\n" + results[0].stdout[-2000:])
     witnesses = {k: v for k, v in rep["witnesses"].items() if v}
-    tlc_violated = set(results[0].violated)
+    tlc_violated = {v[2:] if v.startswith("I_") else v for v in results[0].violated}
     if bool(witnesses.keys() - {"FilesInjective"}) != bool(tlc_violated):
         raise MachineryError("MC_Registry: witnesses %s but TLC reported %s" % (sorted(witnesses), sorted(tlc_violated)))
     crosstalk = []
@@ -432,6 +460,9 @@ def run():
             e0 = copy.deepcopy(next(e for e in c.events if e.get("fn") == "load"))
             e0.update(doc="unknown", outcome="ok")
             c.add_negative(e0, "C18.unknown_raises")
+
+    for e in c.negs:
+        e["neg"] = True
 
     # ---- (C) TLC judges; every TLC counterexample on the registry must be confirmed by a real call -----------
     def judge(scratch, events, trace_module="Trace_Registry", workers=NCPU, **kw):
